@@ -42,9 +42,72 @@ def Affine_root(body, place):
     return cache["a"].root_local(place)
 
 
+def _true_row_by_facts(facts, cv, sym, bb, seen_rows):
+    """a literal `true` result reached through a classification (an enum answer mapped to bool): every way into it must carry the
+    facts of one documented row - empty ring and offset == 0; some chunk.offset == offset; highest_end_offset() == Some(offset)"""
+    from analysis.guards import path_facts, infeasible
+    alts = [a for a in path_facts(cv, sym, facts, bb) if not infeasible(a, facts.adts)]
+    if not alts:
+        return False
+    kinds = set()
+    for fs in alts:
+        empty = any(f["val"] is True and is_call(f["expr"], "is_empty") and _is_f(f["expr"][2][0], "chunks") for f in fs)
+        zero = has_cmp(fs, "Eq", lambda a: a[0] == "arg", lambda x: const_val(x) == 0) or has_cmp(fs, "Eq", lambda a: const_val(a) == 0, lambda x: x[0] == "arg")
+        boundary = has_cmp(fs, "Eq", lambda a: _is_f(a, "offset") and a[1][0] != "arg", lambda x: x[0] == "arg" and x[1] == 2)
+        edge = False
+        for f in fs:
+            e = f["expr"]
+            if f["val"] is True and is_call(e, "eq") and len(e[2]) == 2:
+                a, b2 = e[2]
+                he = a if is_call(a, RING + "::highest_end_offset") else b2 if is_call(b2, RING + "::highest_end_offset") else None
+                other = b2 if he is a else a
+                if he is not None and other[0] == "agg" and other[2] == "Some" and other[3][0][1][0] == "arg":
+                    edge = True
+            if f["val"] is True and e[0] == "bin" and e[1] == "Eq" and _edge_sum(e[2], e[3]):
+                edge = True
+        if empty and zero:
+            kinds.add("empty")
+        elif boundary:
+            kinds.add("boundary")
+        elif edge:
+            kinds.add("edge")
+        else:
+            return False
+    seen_rows |= kinds
+    return True
+
+
+def _ring_resets(facts, b):
+    """points where a whole ReplayRing is overwritten with a fresh one, `*ring = ReplayRing::new(cap)` (empty chunk list,
+    bytes_held 0 - see the constructor check): [(bb, idx, capacity expression)]"""
+    out = []
+    s = Sym(b)
+    for i, j, st in b.assigns():
+        pl = st["place"]
+        if [e for e in pl["p"] if e != "deref"] and not (isinstance(pl["p"][-1], dict) and pl["p"][-1].get("f") == "replay"):
+            continue
+        if not pl["p"]:
+            continue
+        v = s.rvalue(st["rv"])
+        if is_call(v, RING + "::new") and len(v[2]) == 1:
+            out.append((i, j, v[2][0]))
+    for i, t in b.calls():
+        if callee_matches(t["callee"], RING + "::new") and t["dest"]["p"] and t["args"]:
+            out.append((i, len(b.blocks[i]["stmts"]), s.op(t["args"][0])))
+    return out
+
+
 def run(facts, R):
     for f in ("chunks", "bytes_held", "capacity_bytes"):
         facts.require_field(RING, f)
+    # the constructor builds an empty ring of the given capacity (what a reset through it relies on)
+    nb_ = facts.body(RING + "::new")
+    nv_ = Sym(nb_).local(0)
+    okn = nv_[0] == "agg" and str(nv_[1]).endswith("ReplayRing")
+    if okn:
+        d_ = dict(nv_[3])
+        okn = const_val(d_.get("bytes_held")) == 0 and d_.get("capacity_bytes", ("?",))[0] == "arg" and is_call(d_.get("chunks"), "new", "with_capacity")
+    R.check(okn, "evict-discipline", nb_.path, "a new ring is empty and has the given capacity", "ReplayRing::new builds %s" % render(nv_)[:140], nb_.span)
 
     # ---------- capacity-is-fixed: "never holds more than its byte capacity" is about the capacity the ring was built with.
     # Inside a live control (a function working under the state lock) a ring may be rebuilt (`advance_to_file` starting over), but
@@ -68,6 +131,10 @@ def run(facts, R):
     for w in field_writes(facts, RING, "capacity_bytes"):
         if w["body"].path != RING + "::new":
             n_cap += 1
+            rs_ = [r_ for r_ in _ring_resets(facts, w["body"]) if (r_[0], r_[1]) == (w["bb"], w["idx"])] if w["kind"] == "whole" else []
+            if rs_ and _is_f(rs_[0][2], "capacity_bytes"):
+                R.ok("evict-discipline", w["body"].path, "a ring reset through the constructor keeps its capacity", w.get("span"), "*ring = ReplayRing::new(ring.capacity_bytes)")
+                continue
             R.bad("evict-discipline", w["body"].path, "capacity is fixed", "ReplayRing.capacity_bytes is written outside ReplayRing::new", w.get("span"))
 
     # ---------- resume-gate ----------------------------------------------------------------------
@@ -105,6 +172,15 @@ def run(facts, R):
                 txt = render(v)
                 ok = v[0] == "agg" and v[2] == "Some" and any(
                     x[0] == "agg" and x[1].endswith("PendingResume") and dict(x[3]).get("resume_at_offset") == offset_arg for x in walk(v))
+                if not ok and getattr(rr, "changed", False):
+                    # the validated offset may come back from the validating half through `Ok(offset)?`: by reaching definitions
+                    from analysis.sym import split_rows as _sr
+                    alts_ = _sr(sym, w["bb"], w["idx"], w["rv"]) or []
+                    ok = bool(alts_) and all(v_[0] == "agg" and v_[2] == "Some" and any(
+                        x[0] == "agg" and x[1].endswith("PendingResume") and dict(x[3]).get("resume_at_offset") == offset_arg for x in walk(v_)) for _, v_ in alts_)
+                    if ok:
+                        v = alts_[0][1]
+                        txt = render(v)
                 R.check(ok, "resume-gate", rr.path, "staged-offset",
                         "pending_resume is staged as %s, not the offset validated by covers(%s)" % (txt, render(offset_arg)), w["span"], txt)
 
@@ -131,6 +207,8 @@ def run(facts, R):
             R.check(ok, "covers-table", cv.path, "row:empty-ring",
                     "`offset == 0` is returned outside the chunks.is_empty() branch; guards: %s" % texts(fs), span, "empty ring -> offset == 0")
             seen_rows.add("empty")
+        elif const_val(val) == 1 and getattr(cv, "changed", False) and _true_row_by_facts(facts, cv, sym, bb, seen_rows):
+            R.ok("covers-table", cv.path, "row:true", span, "every way into this `true` is one of the three documented rows")
         elif const_val(val) == 1:
             ok = has_cmp(fs, "Eq", lambda a: _is_f(a, "offset") and a[1][0] != "arg", lambda x: x[0] == "arg" and x[1] == 2)
             if not ok:
@@ -355,6 +433,8 @@ def _replay_rules(facts, R):
     for w in field_writes(facts, RING, "chunks"):
         b = w["body"]
         if w["kind"] != "mut-borrow":
+            if w["kind"] == "whole" and b.path == RING + "::clear" and any((r_[0], r_[1]) == (w["bb"], w["idx"]) for r_ in _ring_resets(facts, b)):
+                continue    # clear() spelled as a reset through the constructor: judged under advance-clears
             R.check(b.path == RING + "::new", "evict-discipline", b.path, "chunks-store", "ReplayRing.chunks is overwritten", w["span"])
             continue
         # which call consumes the borrow?
@@ -472,6 +552,10 @@ def _replay_rules(facts, R):
     csym = Sym(cl)
     c1 = [term_pt(cl, i) for i, t in cl.calls() if t["callee"]["path"].endswith("VecDeque::<T, A>::clear") and _is_f(csym.op(t["args"][0]), "chunks")]
     c2 = [(w["bb"], w["idx"]) for w in field_writes(facts, RING, "bytes_held") if w["body"] is cl and w["kind"] == "store" and const_val(csym.rvalue(w["rv"])) == 0]
+    # `*self = Self::new(self.capacity_bytes)` empties the list and zeroes the count in one step
+    for r_ in _ring_resets(facts, cl):
+        c1.append((r_[0], r_[1]))
+        c2.append((r_[0], r_[1]))
     R.check(c1 and must_cross(cl, [(0, 0)], return_points(cl), c1, after_start=False) is None, "advance-clears", cl.path, "chunks.clear()",
             "ReplayRing::clear does not empty the chunk list on all paths", cl.span)
     R.check(c2 and must_cross(cl, [(0, 0)], return_points(cl), c2, after_start=False) is None, "advance-clears", cl.path, "bytes_held = 0",
